@@ -55,7 +55,7 @@ def close(a, b, tol=1e-7):
 
 def check(ctx):
     q = ctx.quick
-    consts = {"Nets": '{"n1", "n2", "n3"}', "MaxLen": 4 if q else 5, "Keep": 7 if q else 3, "Seed": ctx.seed}
+    consts = {"Nets": '{"n1", "n2", "n3"}', "MaxLen": 4 if q else 5, "Keep": 7 if q else 3, "Seed": ctx.seed, "Full": 3}
     cfg = os.path.join(vlib.SPEC, "_lnm_%s.cfg" % ctx.pid)
     with open(cfg, "w") as f:
         f.write("SPECIFICATION Spec\nCONSTANTS\n" + "".join("  %s = %s\n" % kv for kv in consts.items()) + "INVARIANT FlagsCoherent\nINVARIANT Emit\nCHECK_DEADLOCK FALSE\n")
@@ -66,7 +66,9 @@ def check(ctx):
     elif r.outcome != "ok":
         raise vlib.ModelFailure("LocalNetModel: %s\n%s" % (r.outcome, r.out[-2000:]))
     hists = sorted(r.cases, key=lambda c: json.dumps(c, sort_keys=True))
-    hists = hists[:: max(1, len(hists) // (4000 if q else 40000))]
+    short = [h for h in hists if len(h["ops"]) <= 3]                      # all histories of up to three calls
+    longer = [h for h in hists if len(h["ops"]) > 3]
+    hists = short + longer[:: max(1, len(longer) // (2000 if q else 30000))]
     ctx.note("LocalNetModel.tla: %d states, %d histories" % (r.distinct, len(hists)))
     paths = networks(ctx)
     # histories + the fresh history of every query
